@@ -5,6 +5,7 @@ import (
 	"sort"
 	"strings"
 	"sync/atomic"
+	"time"
 
 	"deps.dev/util/resolve"
 	"deps.dev/util/semver"
@@ -155,6 +156,7 @@ func C01(tier string) {
 	var states, transitions, nontrivial int64
 	perSys := map[string]any{}
 	for _, sys := range dom.Systems {
+		t0 := time.Now()
 		strs := dom.Versions(sys, quick)
 		d, rejected := parseDomain(sys, strs)
 		n := len(d.vers)
@@ -230,7 +232,7 @@ func C01(tier string) {
 		}
 		run.Outcome(fmt.Sprintf("%v:%d classes", sys, classes))
 		perSys[sys.String()] = map[string]any{"domain": len(strs), "parsed": n, "rejected_by_parse": rejected, "equivalence_classes": classes,
-			"pairs": n * n, "triples_decided_by_certificate": int64(n) * int64(n) * int64(n), "build_metadata_pairs": buildPairs, "sort_permutations": sorts}
+			"wall_s": time.Since(t0).Seconds(), "pairs": n * n, "triples_decided_by_certificate": int64(n) * int64(n) * int64(n), "build_metadata_pairs": buildPairs, "sort_permutations": sorts}
 		run.Sample(map[string]any{"system": sys.String(), "a": d.strs[n/3], "b": d.strs[2*n/3], "cmp": d.m[n/3][2*n/3]})
 		if classes < 10 {
 			core.Harness("C01 %v: only %d equivalence classes — vacuous domain", sys, classes)
